@@ -234,20 +234,48 @@ func solve(o *Obligation, dir string, budgetMs int, portfolioAll bool) *SolveRes
 	if o.Expect == "unsat" && !portfolioAll && o.Class != "smoke" && os.Getenv("GOVC_NOSLICE") == "" {
 		// cheapest first: the goal's cone of influence, definitions only, then with the facts
 		// that touch it (dropping assumptions is sound for a proof)
-		for k, withFacts := range []bool{false, true} {
-			st := o.smtSliced(withFacts)
+		type stage struct {
+			facts bool
+			depth int
+			ms    int
+			label string
+		}
+		prevText := ""
+		for k, sg := range []stage{
+			{false, 0, 600, "definitions only"},
+			{true, 0, 1500, "definitions and the facts touching them"},
+		} {
+			if k == 1 && os.Getenv("GOVC_NOSKOLEM") == "" {
+				if sk := o.smtSkolemized(); sk != "" {
+					sf := file + ".sk.smt2"
+					if err := os.WriteFile(sf, []byte(sk), 0o644); err == nil {
+						stt, out, ms := runSolver(ctx, solvers[0], sf, 2500*stageScale)
+						if kd := os.Getenv("GOVC_DUMPQ"); kd != "" && strings.HasSuffix(o.Name, kd) {
+							os.WriteFile(filepath.Join("/tmp", fmt.Sprintf("dumpq-%d-%s-skolem.smt2", os.Getpid(), stt)), []byte(sk), 0o644)
+						}
+						os.Remove(sf)
+						res.Tried = append(res.Tried, fmt.Sprintf("%s(goal skolemised, quantified assumptions instantiated at the skolem constants):%s:%dms", solvers[0].name, stt, ms))
+						if stt == "unsat" {
+							res.Status, res.Solver, res.Ms, res.Output = stt, solvers[0].name+" (goal skolemised, quantified assumptions instantiated at the skolem constants)", ms, out
+							res.SMTBytes = len(sk)
+							return res
+						}
+					}
+				}
+			}
+			st := o.smtSlicedDepth(sg.facts, sg.depth)
 			if st == "" {
 				break
 			}
+			if st == prevText {
+				continue
+			}
+			prevText = st
 			sf := fmt.Sprintf("%s.s%d.smt2", file, k)
 			if err := os.WriteFile(sf, []byte(st), 0o644); err != nil {
 				break
 			}
-			ms0 := 600 * stageScale
-			if withFacts {
-				ms0 = 1500 * stageScale
-			}
-			stt, out, ms := runSolver(ctx, solvers[0], sf, ms0)
+			stt, out, ms := runSolver(ctx, solvers[0], sf, sg.ms*stageScale)
 			if kd := os.Getenv("GOVC_DUMPQ"); kd != "" && strings.HasSuffix(o.Name, kd) {
 				os.WriteFile(filepath.Join("/tmp", fmt.Sprintf("dumpq-%d-%s-%d.smt2", os.Getpid(), stt, k)), []byte(st), 0o644)
 				os.WriteFile(filepath.Join("/tmp", fmt.Sprintf("dumpq-%d-full.smt2", os.Getpid())), []byte(text), 0o644)
@@ -256,13 +284,9 @@ func solve(o *Obligation, dir string, budgetMs int, portfolioAll bool) *SolveRes
 				os.WriteFile(filepath.Join("/tmp", fmt.Sprintf("slice-%x-%d.smt2", hashStr(o.Name), k)), []byte(st), 0o644)
 			}
 			os.Remove(sf)
-			label := "definitions only"
-			if withFacts {
-				label = "definitions and the facts touching them"
-			}
-			res.Tried = append(res.Tried, fmt.Sprintf("%s(cone of influence, %s):%s:%dms", solvers[0].name, label, stt, ms))
+			res.Tried = append(res.Tried, fmt.Sprintf("%s(cone of influence, %s):%s:%dms", solvers[0].name, sg.label, stt, ms))
 			if stt == "unsat" {
-				res.Status, res.Solver, res.Ms, res.Output = stt, solvers[0].name+" (cone of influence of the goal, "+label+")", ms, out
+				res.Status, res.Solver, res.Ms, res.Output = stt, solvers[0].name+" (cone of influence of the goal, "+sg.label+")", ms, out
 				res.SMTBytes = len(st)
 				return res
 			}
